@@ -1,6 +1,7 @@
 import TxVerif.Props.C08
 import TxVerif.Tie.Skeleton
 import TxVerif.Props.C08Crash
+import TxVerif.Props.C08CrashOpt
 open TxVerif
 #print axioms writer_releases_all
 #print axioms reset_clears_error
@@ -30,3 +31,20 @@ open TxVerif
 #print axioms fxInit_safe
 #print axioms lax_discipline_not_crash_safe
 #print axioms no_restore_not_crash_safe
+#print axioms osafe_step
+#print axioms osafe_crash
+#print axioms reapply_after_failed_sync
+#print axioms completed_sync_exact
+#print axioms crash_recovers_opt
+#print axioms crash_committed_only_opt
+#print axioms pattern1_accepted
+#print axioms failure_path_locked_opt
+#print axioms restore_completes_opt
+#print axioms failed_attempt_never_resurfaces_opt
+#print axioms continuation_crash_safe_opt
+#print axioms cfg_traces_accepted
+#print axioms osafe_preserved
+#print axioms osafe_start
+#print axioms recovered_operational_opt
+#print axioms oxInit_safe
+#print axioms lax_opt_not_crash_safe
